@@ -623,6 +623,123 @@ Proof.
 Qed.
 
 (* ========================================================================================== *)
+(* Part (f): nothing but the directive loop and the end of a document changes the table           *)
+(* ========================================================================================== *)
+Lemma peek_tags : forall p t p1, Parser.peek p = Parser.Ok (t, p1) -> p_tags p1 = p_tags p.
+Proof.
+  intros p t p1 H. unfold Parser.peek in H. destruct (p_token p).
+  - inversion H; subst. reflexivity.
+  - destruct (p_toks p); [discriminate|]. inversion H; subst. reflexivity.
+Qed.
+Lemma pop_state_tags : forall p p1, pop_state p = Parser.Ok p1 -> p_tags p1 = p_tags p.
+Proof. intros p p1 H. unfold pop_state in H. destruct (p_states p); [discriminate|]. inversion H; subst. reflexivity. Qed.
+
+Ltac tags_step H :=
+  match type of H with
+  | (match Parser.peek ?p with _ => _ end) = _ =>
+      let E := fresh "E" in destruct (Parser.peek p) as [[? ?]| |] eqn:E; [apply peek_tags in E|discriminate|discriminate]
+  | (match pop_state ?p with _ => _ end) = _ =>
+      let E := fresh "E" in destruct (pop_state p) as [?| |] eqn:E; [apply pop_state_tags in E|discriminate|discriminate]
+  | (match (match Parser.peek ?p with _ => _ end) with _ => _ end) = _ =>
+      let E := fresh "E" in destruct (Parser.peek p) as [[? ?]| |] eqn:E; [apply peek_tags in E|discriminate|discriminate]
+  | (match (if ?b then _ else _) with _ => _ end) = _ => destruct b
+  | (match (match ?x with _ => _ end) with _ => _ end) = _ => destruct x
+  | (match ?x with _ => _ end) = _ => destruct x
+  | (if ?b then _ else _) = _ => destruct b
+  | (let '(_, _) := ?x in _) = _ => destruct x
+  end.
+Ltac tags_fin H :=
+  try discriminate;
+  inversion H; subst; cbn [p_tags skip set_tok set_state set_states set_anchors push_state register_anchor fst snd] in *; congruence.
+Ltac tags_tac H := repeat (cbv beta iota zeta in H; tags_step H); cbv beta iota zeta in H; tags_fin H.
+
+Lemma empty_or_err_tags : forall p aid tg sp ev p', empty_or_err p aid tg sp = Parser.Ok (ev, p') -> p_tags p' = p_tags p.
+Proof. intros p aid tg sp ev p' H. unfold empty_or_err in H. tags_tac H. Qed.
+
+Lemma node_content_tags : forall p aid tg b i ev p',
+  node_content p aid tg b i = Parser.Ok (ev, p') -> p_tags p' = p_tags p.
+Proof.
+  intros p aid tg b i ev p' H. unfold node_content in H.
+  destruct (Parser.peek p) as [[[sp t] p1]| |] eqn:E; try discriminate. apply peek_tags in E.
+  destruct t; cbv beta iota in H;
+    try (apply empty_or_err_tags in H; congruence);
+    try (destruct b); try (destruct i); try (apply empty_or_err_tags in H; congruence); tags_tac H.
+Qed.
+
+Lemma parse_node_tags : forall p b i ev p', parse_node p b i = Parser.Ok (ev, p') -> p_tags p' = p_tags p.
+Proof.
+  intros p b i ev p' H. unfold parse_node in H.
+  destruct (Parser.peek p) as [[[sp t] p1]| |] eqn:E; try discriminate. apply peek_tags in E.
+  destruct t; cbv beta iota in H;
+    try (match type of H with context [node_props ?q ?t0] =>
+           let EN := fresh "EN" in
+           destruct (node_props q t0) as [[[aid tg] p2]| |] eqn:EN; try discriminate;
+           apply node_props_tag in EN; destruct EN as [EN _]; apply node_content_tags in H; congruence end).
+  tags_tac H.
+Qed.
+
+Ltac tags_node H :=
+  match type of H with
+  | parse_node _ _ _ = _ =>
+      apply parse_node_tags in H;
+      cbn [p_tags skip set_tok set_state set_states set_anchors push_state] in *; congruence
+  end.
+Ltac tags_all H :=
+  repeat (cbv beta iota zeta in H; first [tags_node H | tags_step H]);
+  cbv beta iota zeta in H; first [tags_node H | tags_fin H].
+
+(* the states in which the table may change: the start of a document (directives) and its end *)
+Definition table_state (s : pstate) : bool :=
+  match s with SImplicitDocumentStart | SDocumentStart | SDocumentEnd => true | _ => false end.
+
+Lemma state_machine_tags : forall p ev p',
+  state_machine p = Parser.Ok (ev, p') -> table_state (p_state p) = false -> p_tags p' = p_tags p.
+Proof.
+  intros p ev p' H HS. unfold state_machine in H.
+  destruct (p_state p); cbn [table_state] in HS; try discriminate.
+  - unfold stream_start in H. tags_all H.
+  - unfold document_content in H. tags_all H.
+  - tags_all H.
+  - unfold block_sequence_entry in H. tags_all H.
+  - unfold block_sequence_entry in H. tags_all H.
+  - unfold indentless_sequence_entry in H. tags_all H.
+  - unfold block_mapping_key in H. tags_all H.
+  - unfold block_mapping_key in H. tags_all H.
+  - unfold block_mapping_value in H. tags_all H.
+  - unfold flow_sequence_entry in H. tags_all H.
+  - unfold flow_sequence_entry in H. tags_all H.
+  - unfold flow_sequence_entry_mapping_key in H. tags_all H.
+  - unfold flow_sequence_entry_mapping_value in H. tags_all H.
+  - unfold flow_sequence_entry_mapping_end in H. tags_all H.
+  - unfold flow_mapping_key in H. tags_all H.
+  - unfold flow_mapping_key in H. tags_all H.
+  - unfold flow_mapping_value in H. tags_all H.
+  - unfold flow_mapping_value in H. tags_all H.
+Qed.
+
+(* (c) + (b): from the end of one document to the start of the next, in the words of the specification *)
+Lemma next_document_spec : forall p T ev p1 run sp rest,
+  agree (p_tags p) T -> document_end p = Parser.Ok (ev, p1) ->
+  stream p1 = run ++ (sp, TDocumentStart) :: rest -> run_ok run ->
+  match table_of (p_keep_tags p) T (dirs_of run) with
+  | Some T' =>
+      exists p2, explicit_document_start p1 = Parser.Ok ((EDocumentStart true, sp), p2)
+                 /\ agree (p_tags p2) T' /\ stream p2 = rest /\ p_keep_tags p2 = p_keep_tags p
+  | None =>
+      exists site j, (site = 21 \/ site = 2)%N /\ explicit_document_start p1 = Parser.Err (PErr site (mark_of run j))
+  end.
+Proof.
+  intros p T ev p1 run sp rest HA HD HS HR.
+  destruct (document_end_tags _ _ _ HD) as [Ht [Hk _]].
+  assert (HA1 : agree (p_tags p1) (carried (p_keep_tags p) T)) by (rewrite Ht; apply agree_carried; exact HA).
+  pose proof (explicit_document_start_spec p1 _ run sp rest HS HR HA1) as H.
+  unfold table_of, in_force. destruct (decls (dirs_of run)) as [d|j|j].
+  - destruct H as [p2 [H1 [H2 [H3 [H4 _]]]]]. exists p2. split; [exact H1|]. split; [exact H2|]. split; [exact H3|]. congruence.
+  - exists 21%N, j. split; [left; reflexivity|exact H].
+  - exists 2%N, j. split; [right; reflexivity|exact H].
+Qed.
+
+(* ========================================================================================== *)
 (* Part (d): percent-decoding — the scanner model's scan_uri_escapes against RFC 3629           *)
 (* ========================================================================================== *)
 (* (from here on [Ok]/[Err]/[peek] are the scanner's; the parser's are written Parser.Ok ...)   *)
